@@ -4,10 +4,12 @@
    bit 1: the observed behaviour is not the specified one: the MIC set is not
           the specification's MIC of the frame, or a validate result is not
           (carried MIC = specification MIC), or a frame without a marshalable
-          *MACPayload did not give an error. *)
+          *MACPayload did not give an error; for octets as received: the verdict
+          is not (carried MIC = specification MIC over those octets). *)
 From Coq Require Import List NArith ZArith Bool.
 From LW Require Export Base.Outcome Base.Bytes Crypto.AES Crypto.CMAC Mac.Commands Mac.Stream Frame.Model
-     Sec.MIC Sec.MICSpec.
+     Sec.MIC Sec.MICSpec Sec.Encrypt Sec.EndToEnd Sec.WireMIC.
+From LWGen Require Import RegistryGen.
 Import ListNotations.
 Open Scope N_scope.
 
@@ -17,6 +19,9 @@ Inductive case :=
 | CUp (ver : macver) (conf txdr txch : N) (fkey skey : list N) (p : phy)
       (o_set : outcome (list N)) (o_val o_valf : outcome bool)
 | CDown (ver : macver) (conf : N) (skey : list N) (p : phy) (o_set : outcome (list N)) (o_val : outcome bool)
+(* octets as received: UnmarshalBinary; FCnt := full; [DecodeFOptsToMACCommands;] Validate*DataMIC by role [up] *)
+| CWire (decode_first : bool) (ver : macver) (up : bool) (conf txdr txch : N) (fkey skey : list N) (full : N)
+        (bs : list N) (o : outcome bool)
 (* the primitives underneath, against crypto/aes and jacobsa/crypto/cmac *)
 | CCmac (k m o : list N)
 | CAesEnc (k b o : list N).
@@ -62,6 +67,21 @@ Definition check (c : case) : N :=
             let s := spec_down_mic (sv ver) skey conf a da fc msg in
             oeqb o_set (Ok s) && obeqb o_val (Ok (bytes_eqb (mic p) s))
           | None => is_err o_set && is_err o_val
+          end)
+  | CWire dec ver up conf txdr txch fkey skey full bs o =>
+    code (obeqb (wire_validate_data dec builtin_registry ver up conf txdr txch fkey skey full bs) o)
+         (* the verdict is (carried MIC = specification MIC over the octets as received), for a receiver counter that
+            extends the 16 bits on the wire and a frame of at most 255 octets; an error is a refusal *)
+         (match o with
+          | Ok b =>
+            match wire_spec_data ver up conf txdr txch fkey skey full bs with
+            | Some (carried, specified, wire) =>
+              if (full mod 65536 =? wire) && (length bs - 4 <? 256)%nat
+              then Bool.eqb b (bytes_eqb carried specified) else true
+            | None => false
+            end
+          | Err => true
+          | _ => false
           end)
   | CCmac k m o => code (bytes_eqb (cmac k m) o) (Nat.eqb (length o) 16 && bytes_ok o)
   | CAesEnc k b o =>
